@@ -188,80 +188,87 @@ def run(repo, tier):
         raise AnalysisError(f"mask arithmetic updates several variables {var}")
     var = var.pop()
     params = {a.arg for a in mf.args.args + mf.args.kwonlyargs} - {"self"}
+    # The mask function is bitwise in its base value (only |=, &=, ^= with option-dependent constants are applied to it), so
+    # interpreting its AST on the all-zeros and the all-ones base value determines exactly which bits it sets and clears.
+    # Both base values x every combination of options are run through the abstract interpreter (no repository code is executed).
+    for a in augs:
+        if not isinstance(a.op, (ast.BitOr, ast.BitAnd, ast.BitXor)):
+            raise AnalysisError(f"fpu.py:{a.lineno}: non-bitwise update of {var}")
+    from sa.absint import Interp, Closure, Unsupported as IUnsupported, PyRaise
+
+    class _Val:
+        __absint_host__ = True
+
+        def __init__(self, v):
+            self.value = v
+
+    def interpret(base, FZ, DAZ, RN):
+        I = Interp(repo)
+        I.ext_calls = {"ctypes.c_uint32": lambda v=0: _Val(v)}
+        clo = Closure(mf, {}, I, REL, bound_self=None)
+        kwargs = dict(FZ=FZ, DAZ=DAZ, RN=RN)
+        names = [a.arg for a in mf.args.args]
+        args = []
+        for nm in names:
+            if nm == "self":
+                args.append(_Val(0))
+            elif nm in kwargs:
+                args.append(kwargs.pop(nm))
+            else:
+                args.append(_Val(base))
+        out = I.call(clo, args, kwargs)
+        if isinstance(out, _Val):
+            out = out.value
+        if not isinstance(out, int):
+            raise AnalysisError(f"mask function returned {out!r}, not an integer register value")
+        return out & 0xFFFFFFFF
+
+    base_detail = None
     n_paths = 0
+    for RNv in (None, "nearest", "down", "up", "towardszero"):
+        for FZv in (None, True, False):
+            for DAZv in (None, True, False):
+                n_paths += 1
+                try:
+                    lo = interpret(0, FZv, DAZv, RNv)
+                    hi = interpret(0xFFFFFFFF, FZv, DAZv, RNv)
+                except (IUnsupported, PyRaise) as e:
+                    raise AnalysisError(f"mask function not interpretable for RN={RNv} FZ={FZv} DAZ={DAZv}: {getattr(e, 'what', e)}")
+                setm = lo
+                clrm = (~hi) & 0xFFFFFFFF
+                want_set = want_clr = 0
+                if FZv is not None:
+                    want_set |= FIELD["FZ"] if FZv else 0
+                    want_clr |= 0 if FZv else FIELD["FZ"]
+                if DAZv is not None:
+                    want_set |= FIELD["DAZ"] if DAZv else 0
+                    want_clr |= 0 if DAZv else FIELD["DAZ"]
+                if RNv is not None:
+                    rc = RC[RNv]
+                    want_set |= (rc & 3) << 13
+                    want_clr |= ((~rc) & 3) << 13
+                ok = setm == want_set and clrm == want_clr
+                key = f"fpu.py mask RN={RNv} FZ={FZv} DAZ={DAZv}"
+                r.ob(
+                    "R18.4", key, ok,
+                    "" if ok else f"bits set {setm:#06x} cleared {clrm:#06x}; the MXCSR layout requires set {want_set:#06x} cleared {want_clr:#06x} "
+                    "(a field that is only OR-ed keeps stale bits of the mode that was active on entry)",
+                    loc(REL, mf), sample=dict(rule="R18.4", options=key, set=hex(setm), cleared=hex(clrm)),
+                )
+    # base value of the mask variable: a parameter of the function or a register read made inside it
     for p in enumerate_paths(mf):
         if p.exit == "raise":
             continue
-        n_paths += 1
-        present, truth, rc, why = _path_facts(p, params)
-        setm, clrm = 0, 0
-        base_ok = None
         for i, e in enumerate(p.events):
-            if e.kind != "stmt":
-                continue
             st = e.node
-            if isinstance(st, ast.AugAssign) and dotted(st.target) == var:
-                if isinstance(st.op, ast.BitOr):
-                    c = ev(st.value)
-                    if not isinstance(c, int):
-                        raise AnalysisError(f"fpu.py:{st.lineno}: cannot evaluate mask `{norm_src(st.value)}`")
-                    setm |= c
-                    clrm &= ~c
-                elif isinstance(st.op, ast.BitAnd):
-                    c = ev(st.value)
-                    if not isinstance(c, int):
-                        raise AnalysisError(f"fpu.py:{st.lineno}: cannot evaluate mask `{norm_src(st.value)}`")
-                    keep = c & 0xFFFFFFFF
-                    clrm |= (~keep) & 0xFFFFFFFF
-                    setm &= keep
-                else:
-                    raise AnalysisError(f"fpu.py:{st.lineno}: unsupported update of {var}")
-            elif isinstance(st, (ast.Assign, ast.AnnAssign)):
+            if e.kind == "stmt" and isinstance(st, (ast.Assign, ast.AnnAssign)):
                 tg = st.targets if isinstance(st, ast.Assign) else [st.target]
                 if any(dotted(t) == var for t in tg):
-                    if setm or clrm:
-                        raise AnalysisError(f"fpu.py:{st.lineno}: {var} reassigned after mask updates")
                     og = origins(st.value, p.events, i)
-                    base_ok = any(k == "call" and v.endswith("get_mxcsr") for k, v in og) or any(
-                        k == "name" and v in params for k, v in og
-                    )
-                    base_detail = sorted(og)
-        want_set, want_clr, allowed_bits = 0, 0, 0
-        for name in ("FZ", "DAZ"):
-            if present.get(name):
-                allowed_bits |= FIELD[name]
-                if truth.get(name) is True:
-                    want_set |= FIELD[name]
-                elif truth.get(name) is False:
-                    want_clr |= FIELD[name]
-                else:
-                    raise AnalysisError(f"path {p.describe()}: {name} is requested but its truth value is not tested")
-        if present.get("RN"):
-            allowed_bits |= FIELD["RN"]
-            if rc is None:
-                raise AnalysisError(f"path {p.describe()}: RN requested but rounding code not determined ({why})")
-            want_set |= (rc & 3) << 13
-            want_clr |= ((~rc) & 3) << 13
-        ok = setm == want_set and clrm == want_clr
-        key = "fpu.py mask path " + ",".join(
-            f"{k}={'None' if not present.get(k) else (rc if k == 'RN' else truth.get(k))}" for k in ("RN", "FZ", "DAZ")
-        )
-        r.ob(
-            "R18.4",
-            key,
-            ok,
-            "" if ok else f"bits set {setm:#06x} cleared {clrm:#06x}, MXCSR layout requires set {want_set:#06x} cleared {want_clr:#06x}",
-            loc(REL, mf),
-            sample=dict(rule="R18.4", path=key, set=hex(setm), cleared=hex(clrm)),
-        )
-        if base_ok is not None:
-            r.ob(
-                "R18.3",
-                f"fpu.py::{mf.name} base value of {var}",
-                base_ok,
-                "" if base_ok else f"{var} starts from {base_detail}, neither a parameter nor a register read of this function",
-                loc(REL, mf),
-            )
+                    base_ok = any(k == "call" and v.endswith("get_mxcsr") for k, v in og) or any(k == "name" and v in params for k, v in og)
+                    r.ob("R18.3", f"fpu.py::{mf.name} base value of {var}", base_ok,
+                         "" if base_ok else f"{var} starts from {sorted(og)}, neither a parameter nor a register read of this function", loc(REL, mf))
+        break
     # where is the mask function invoked from?  it must be evaluated at enter time
     if mf is not enter:
         called_from_enter = any((call_name(c) or "").split(".")[-1] == mf.name for c in calls_in(enter))
